@@ -59,6 +59,11 @@ claimed = {
          "Every path operator in every legal operand-count form and its illegal neighbours x 3 operand rotations x every preceding path operator x with/without width; flex1 direction cases; every arithmetic/logic/stack operator on all tuples from a 6-value alphabet, ifelse on all 4-tuples, put/get, roll/index for all (n,j) <= 4; stems x masks x implicit vstems x hm variants x width for 0..9 stems per direction; the five number encodings at their boundaries; subroutine tables of sizes 0..33900 (40000 thorough) called at first/last/one-past index, nesting 1..12; CID-keyed fonts with all FDSelect functions on 4 glyphs over 2..3 font dicts with different widths and local subroutines; single faults (truncation at every byte, every byte deleted, every operator with 0..3 operands before/after moveto, 47..50 operands). cff.Read's glyph (path, stems, masks, width) must equal reft2's to 2^-16; programs reft2 rejects for one of the listed fault classes must be rejected.",
          "reft2/refcff (independent, cross-checked against x/image on two real fonts) are the trusted base; ill-formed programs outside the property's list (undefined arithmetic, odd operand counts, misplaced hints) are not compared; two known findings (delta clamp at +-32000, path operators with too few operands skipped).",
          "DESIGN.md 4/C05"),
+ "C04": ("model_checking",
+         "bounded exhaustive enumeration of glyph programs, stem/mask layouts and width assignments; emitted charstrings executed by a strict independent interpreter",
+         "All glyph programs of <= 3 segments over a 30-segment alphabet chosen from the encoder's case analysis (lines with zero/non-zero deltas, degenerate lines, curves with all 16 zero/non-zero patterns of the outer deltas, flex-like couples, moves; fractional deltas) from two start points; periodic runs (period <= 3 over 8 segment types with steps such as 0.1, 1/3, 1/7) of lengths 1..60 crossing the 48-entry stack limit; stem counts {0,1,2,23,24,25,47,48,96} per direction x four mask placements x own/default width; all 7^4 width assignments of a 4-glyph font incl. fractional widths. Font.Write's output is walked by refcff, every charstring executed by reft2 in strict mode (legal operand counts, stack <= 48, endchar, nothing after it) and compared with the source glyph with an absolute tolerance of 2^-16 per coordinate.",
+         "reft2/refcff are the trusted base (each stem operator restarts at 0, as in FreeType); coordinates within +-32000.",
+         "DESIGN.md 4/C04"),
 }
 checks = []
 na = []
